@@ -737,25 +737,30 @@ fn configs(tier: Tier, with_dups: bool) -> Vec<ChanCase> {
         Send { items: 1 },
         Send { items: 2 },
         Send { items: 3 },
+        Send { items: 4 },
         Sink { items: 1, close: false, pause: false },
         Sink { items: 2, close: false, pause: true },
+        Sink { items: 3, close: false, pause: false },
         Sink { items: 0, close: true, pause: false },
         Sink { items: 1, close: true, pause: false },
         Sink { items: 1, close: true, pause: true },
         Sink { items: 2, close: true, pause: true },
         Join { a: 1, b: 1 },
         Join { a: 2, b: 1 },
+        Join { a: 2, b: 2 },
     ];
     let p2: Vec<SenderProg> = vec![
         Send { items: 1 },
         Send { items: 2 },
+        Send { items: 3 },
         Sink { items: 1, close: false, pause: false },
+        Sink { items: 2, close: false, pause: true },
         Sink { items: 1, close: true, pause: true },
         Sink { items: 2, close: true, pause: false },
         Join { a: 1, b: 1 },
+        Join { a: 2, b: 1 },
     ];
     let p3: Vec<SenderProg> = tier.pick(
-        vec![Send { items: 1 }, Sink { items: 1, close: false, pause: false }],
         vec![
             Send { items: 1 },
             Send { items: 2 },
@@ -763,32 +768,52 @@ fn configs(tier: Tier, with_dups: bool) -> Vec<ChanCase> {
             Sink { items: 1, close: true, pause: true },
             Join { a: 1, b: 1 },
         ],
+        vec![
+            Send { items: 1 },
+            Send { items: 2 },
+            Send { items: 3 },
+            Sink { items: 1, close: false, pause: false },
+            Sink { items: 2, close: false, pause: true },
+            Sink { items: 1, close: true, pause: true },
+            Join { a: 1, b: 1 },
+            Join { a: 2, b: 1 },
+        ],
     );
     let no_join = |v: &Vec<SenderProg>| !v.iter().any(|p| matches!(p, Join { .. }));
     let recvs = [
         RecvProg::All,
         RecvProg::CloseAfter(0),
         RecvProg::CloseAfter(1),
+        RecvProg::CloseAfter(2),
         RecvProg::DropAfter(0),
         RecvProg::DropAfter(1),
+        RecvProg::DropAfter(2),
     ];
     let mut out = vec![];
     let mut sets: Vec<Vec<SenderProg>> = vec![];
     sets.extend(multisets(&p1, 1));
     sets.extend(multisets(&p2, 2));
     sets.extend(multisets(&p3, 3));
+    if tier == Tier::Thorough {
+        sets.extend(multisets(&[Send { items: 1 }, Send { items: 2 }, Join { a: 1, b: 1 }], 4));
+    }
     for senders in sets {
         if !with_dups && !no_join(&senders) {
             continue;
         }
-        let caps: &[u8] = if senders.len() == 3 { &[1, 2] } else { &[1, 2, 0] };
+        let big = senders.len() >= 3;
+        let caps: &[u8] = if big { &[1, 2] } else { &[1, 2, 3, 0] };
         for &cap in caps {
             for recv in &recvs {
-                if senders.len() == 3 && !matches!(recv, RecvProg::All | RecvProg::CloseAfter(1)) {
+                if big && !matches!(recv, RecvProg::All | RecvProg::CloseAfter(1) | RecvProg::DropAfter(1)) {
                     continue;
                 }
                 let spur: &[u8] = if with_dups {
-                    if senders.len() == 3 { &[1] } else { &[1, 2] }
+                    if big {
+                        tier.pick(&[1u8][..], &[1u8, 2][..])
+                    } else {
+                        tier.pick(&[1u8, 2][..], &[1u8, 2, 3][..])
+                    }
                 } else {
                     &[0]
                 };
@@ -841,6 +866,8 @@ pub fn run(ctx: &mut Ctx) {
     let depth = tier.pick(64usize, 96usize);
 
     let stats: Rc<RefCell<(u64, u64, u64)>> = Rc::new(RefCell::new((0, 0, 0)));
+    let replay = ctx.is_replay();
+    let configs = |tier: Tier, with_dups: bool| if replay { vec![] } else { configs(tier, with_dups) };
     let lazy_leaves = |cfgs: Vec<ChanCase>, stats: Rc<RefCell<(u64, u64, u64)>>| {
         cfgs.into_iter().flat_map(move |cfg| {
             let mut leaves = vec![];
@@ -895,7 +922,7 @@ pub fn run(ctx: &mut Ctx) {
     ctx.check_all("chan-cancelled-send-class", lazy_leaves(cancel_cfgs, stats.clone()), run_case);
 
     // (d) random deeper schedules
-    let cases = tier.pick(40_000u32, 1_000_000u32);
+    let cases = tier.pick(300_000u32, 5_000_000u32);
     let strat = (
         0u8..=3,
         proptest::collection::vec(prog_strategy(), 1..=4),
